@@ -279,6 +279,8 @@ type astate =
 | AHas of bool
 | AEid
 
+val seq_opt : 'a1 option list -> 'a1 list option
+
 val arch_state : (n -> bool) -> query -> astate option
 
 val qmatch : (n -> bool) -> query -> bool
